@@ -212,6 +212,10 @@ namespace igris
 
         void clear()
         {
+            for (std::size_t pos = 0; pos < m_size; ++pos)
+            {
+                reinterpret_cast<T *>(&_data[pos])->~T();
+            }
             m_size = 0;
         }
     };
